@@ -32,7 +32,12 @@ func GetFilesWithFilter(codeDir string, filter func(path string) bool) []string 
 
 	_ = filepath.Walk(codeDir, func(path string, fi os.FileInfo, err error) error {
 		if gitIgnore != nil {
-			if gitIgnore.MatchesPath(path) {
+			// the patterns of the ignore file are relative to the directory it lies in
+			rel, relErr := filepath.Rel(codeDir, path)
+			if relErr != nil {
+				rel = path
+			}
+			if gitIgnore.MatchesPath(rel) {
 				return nil
 			}
 		}
